@@ -1,22 +1,24 @@
 #!/bin/bash
-# tools/ingest_round2.sh <Cxx>  - confirm /tmp/seedout3/<Cxx>-{1,2,3} in worktree /tmp/wt/<Cxx> and store confirmed ones as seeded/<Cxx>-{7,8,9}
-P=$1; HERE=$(cd $(dirname $0)/..; pwd)
+# tools/ingest_seeds.sh <Cxx> <srcdir> <round> <offset>
+# confirm <srcdir>/<Cxx>-{1,2,3} in worktree /tmp/wt/<Cxx> (must be at /repo HEAD) and store confirmed ones as seeded/<Cxx>-{offset+1..offset+3}
+P=$1; SRC=$2; ROUND=$3; OFF=$4; HERE=$(cd $(dirname $0)/..; pwd)
 for n in 1 2 3; do
-  S=/tmp/seedout3/$P-$n; [ -f $S/patch.diff ] || continue
+  S=$SRC/$P-$n; [ -f $S/patch.diff ] || continue
   bash $HERE/tools/confirm_seed.sh $S /tmp/wt/$P || continue
-  D=$HERE/seeded/$P-$((n+6))
-  /venv/bin/python - $S $D <<'PY'
+  D=$HERE/seeded/$P-$((n+OFF))
+  /venv/bin/python - $S $D $ROUND <<'PY'
 import json,sys,os,shutil
-s,d=sys.argv[1:3]
+s,d,rnd=sys.argv[1:4]
 c=json.load(open(s+'/confirm.json'))
 if not c.get('confirmed'): print('NOT CONFIRMED',s,c); sys.exit(0)
 os.makedirs(d,exist_ok=True)
 shutil.copy(s+'/patch.diff',d); shutil.copy(s+'/demo.py',d)
 m=json.load(open(s+'/meta.json'))
-m['round']=3
-m['origin']="written by an independent round-3 sub-agent that saw only the property text and a scratch worktree (nothing from /verif)"
+m['round']=int(rnd)
+m['origin']=f"written by an independent round-{rnd} sub-agent that saw only the property text and a scratch worktree (nothing from /verif)"
 m['confirmed_by_me']={"how":"tools/confirm_seed.sh in a scratch worktree at /repo HEAD: git apply; pinned 881-test suite; demo on changed tree; git checkout; demo on pristine tree", **{k:c[k] for k in ('suite','demo_exit_changed','demo_exit_pristine','confirmed')}}
 json.dump(m,open(d+'/meta.json','w'),indent=1)
+json.dump(c,open(d+'/confirm.json','w'),indent=1)
 print('stored',d)
 PY
 done
